@@ -588,6 +588,32 @@ def threaded_checkpoint_used_outside(rng, s, b):
 
 
 @mutator("C05")
+def threaded_checkpoint_nested_outside(rng, s, b):
+    """A checkpoint outside a thread group (unbound, or bound to a group that the bound checkpoint's group does not
+    enclose... i.e. to a sibling / unrelated group) NESTS a checkpoint bound to that group."""
+    bound = [c for c in s["checkpoints"] if c["ctx"] is not None]
+    if not bound:
+        return None
+    c = rng.choice(bound)
+    hosts = [h for h in s["checkpoints"] if h is not c and (h["ctx"] is None or c["ctx"][1] not in _chain(s, h["ctx"][1]))]
+    # no cycle through the nesting: the host's users must not be mentioned (transitively) by c
+    mentioned = set()
+    for d in c["deps"]:
+        if d[0] == "cmp":
+            for o in (d[1], d[3]):
+                if o[0] == "act":
+                    mentioned |= {o[1][1]} | b.anc.get(o[1][1], set())
+    hosts = [h for h in hosts if not any(x["dep"] == ("checkpoint", h["id"]) and x["id"] in mentioned for x in s["actions"])
+             and not any(d[0] == "ref" for d in c["deps"])]
+    unbound = [h for h in hosts if h["ctx"] is None]
+    if not hosts:
+        return None
+    h = rng.choice(unbound) if unbound and rng.random() < 0.6 else rng.choice(hosts)
+    add_dep(rng, h, ("ref", ("checkpoint", c["id"])))
+    return "checkpoint bound to a thread group nested by a checkpoint outside that group (%s)" % ("unbound" if h["ctx"] is None else "bound elsewhere")
+
+
+@mutator("C05")
 def threaded_action_compared_outside(rng, s, b):
     ta = _threaded_actions(s)
     if not ta:
@@ -837,7 +863,7 @@ def edit_outside_fulfilment_context(rng, s, b):
     return "edit outside the context in which the promise is fulfilled"
 
 
-THREAD_ONLY = {"threaded_action_compared_outside_alone", "unrelated_editor_shares_checkpoint_with_inner_action", "nested_spawn_from_threaded_non_ancestor", "path_on_scalar_variable", "threaded_checkpoint_used_outside", "threaded_action_compared_outside", "second_threaded_operand_outside", "variable_used_outside",
+THREAD_ONLY = {"threaded_checkpoint_nested_outside", "threaded_action_compared_outside_alone", "unrelated_editor_shares_checkpoint_with_inner_action", "nested_spawn_from_threaded_non_ancestor", "path_on_scalar_variable", "threaded_checkpoint_used_outside", "threaded_action_compared_outside", "second_threaded_operand_outside", "variable_used_outside",
                "spawn_from_non_list", "spawn_not_fulfilled_by_ancestor", "unused_thread_group",
                "variable_name_repeats_in_chain", "promise_context_mismatch", "edit_outside_fulfilment_context"}
 
